@@ -575,8 +575,8 @@ impl AssemblyCode {
                                 }
                             }
                             if let Some(v) = &x_register {
-                                if v.eq(&inst.dasm_operand) {
-                                    // Remove this instruction
+                                if v.eq(&inst.dasm_operand) && flags == FlagsState::X {
+                                    // Remove this instruction (the flags are already those of X)
                                     remove_second = !inst.protected;
                                 }
                             }
@@ -595,8 +595,8 @@ impl AssemblyCode {
                                 }
                             }
                             if let Some(v) = &y_register {
-                                if v.eq(&inst.dasm_operand) {
-                                    // Remove this instruction
+                                if v.eq(&inst.dasm_operand) && flags == FlagsState::Y {
+                                    // Remove this instruction (the flags are already those of Y)
                                     remove_second = !inst.protected;
                                 }
                             }
